@@ -1,4 +1,12 @@
 import FimVerif.Drivers.TopoRun
-open FimVerif FimVerif.Proto
+import FimVerif.Proofs.Lemmas.TopoInv
+/-! C07 driver: the shared interpreter of `Model/Topo.lean` plus `{"op":"inv"}`, which evaluates every conjunct of
+`Topo.Inv` (Proofs/Lemmas/TopoInv.lean) on the current model state. -/
+open Lean FimVerif FimVerif.Proto
 
-def main : IO Unit := runState FimVerif.Topo.Topo.empty FimVerif.TopoRun.step
+def stepC07 (s : FimVerif.Topo.Topo) (j : Json) : FimVerif.Topo.Topo × Json :=
+  if FimVerif.TopoRun.getStr j "op" == "inv" then
+    (s, ok (Json.mkObj ((FimVerif.Topo.verdicts s).map (fun p => (p.1, Json.bool p.2)))))
+  else FimVerif.TopoRun.step s j
+
+def main : IO Unit := runState FimVerif.Topo.Topo.empty stepC07
